@@ -1,4 +1,5 @@
-From Coq Require Import Reals Lra Lia ZArith QArith Qabs Qminmax Psatz.
+From Coq Require Import Reals Lra Lia ZArith QArith Qabs Qminmax Psatz Qreals List Bool.
+Import ListNotations.
 (* math.isclose(a, b, rel_tol, abs_tol) as a predicate over Q (mathematical spec) *)
 Definition qisclose (a b rel abs_ : Q) : bool :=
   Qle_bool (Qabs (a - b)) (Qmax (rel * Qmax (Qabs a) (Qabs b)) abs_).
@@ -40,4 +41,35 @@ Proof.
     rewrite Rsqr_sqrt by auto. unfold Rsqr, s. lra. }
   rewrite Rabs_pos_eq by lra. lra.
 Qed.
-Print Assumptions accept_norm_fixed.
+
+Close Scope R_scope.
+Open Scope Q_scope.
+(* shape test "log2(x) is a non-negative integer" *)
+Definition pow2_ok (x : N) : bool := (0 <? x)%N && (N.pow 2 (N.log2 x) =? x)%N.
+Lemma pow2_ok_spec x : pow2_ok x = true -> x = (2 ^ N.log2 x)%N.
+Proof. unfold pow2_ok. intros H. apply andb_prop in H as [_ H]. apply N.eqb_eq in H. now symmetry. Qed.
+Definition qsum (l : list Q) : Q := fold_right Qplus 0 l.
+
+Lemma qisclose_sound a b rel abs_ :
+  qisclose a b rel abs_ = true -> Qabs (a - b) <= Qmax (rel * Qmax (Qabs a) (Qabs b)) abs_.
+Proof. unfold qisclose. intros H. now apply Qle_bool_iff. Qed.
+
+(* with rel_tol = 0 the test is a plain absolute bound *)
+Lemma qisclose_abs_bound s rel abs_ B :
+  rel == 0 -> 0 <= abs_ -> abs_ <= B -> qisclose s 1 rel abs_ = true -> Qabs (s - 1) <= B.
+Proof.
+  intros Hr Ha HB H. apply qisclose_sound in H.
+  eapply Qle_trans; [exact H|]. apply Q.max_lub; [|exact HB].
+  rewrite Hr. rewrite Qmult_0_l. eapply Qle_trans; eauto.
+Qed.
+
+Lemma Q2R_Qabs x : Q2R (Qabs x) = Rabs (Q2R x).
+Proof.
+  apply Qabs_case; intros H.
+  - apply Qle_Rle in H. replace (Q2R 0) with 0%R in H by (unfold Q2R; simpl; lra).
+    now rewrite Rabs_pos_eq.
+  - apply Qle_Rle in H. replace (Q2R 0) with 0%R in H by (unfold Q2R; simpl; lra).
+    rewrite Q2R_opp. destruct (Req_dec (Q2R x) 0) as [Z|Z].
+    + rewrite Z, Rabs_R0. lra.
+    + rewrite Rabs_left; lra.
+Qed.
